@@ -19,7 +19,7 @@ FLAGS = {"core": [], "clj": ["-DEDN_ENABLE_CLOJURE_EXTENSION"], "exp": ["-DEDN_E
 
 
 def sh(cmd, **kw):
-    return subprocess.run(cmd, stdout=subprocess.PIPE, stderr=subprocess.STDOUT, text=True, **kw)
+    return subprocess.run(cmd, stdout=subprocess.PIPE, stderr=subprocess.STDOUT, text=True, errors="replace", **kw)
 
 
 def run_tests(tree):
